@@ -438,6 +438,12 @@ def _k4(run: Run, w: World) -> None:
             "length/time": Dim.of(length=1, time=-1), "angle/time": Dim.of(angle=1, time=-1), "1/time": Dim.of(time=-1),
             # a base dimension outside the seven SI ones that is NOT erased like angle (sympy's `information`: bit, byte)
             "information": Dim.of(information=1), "information/time": Dim.of(information=1, time=-1)}
+    if run.tier == "thorough":
+        # thorough: every SI base dimension, fractional and negative exponents, angle to a power, compound derived dimensions
+        dims.update({"mass": Dim.of(mass=1), "current": Dim.of(current=1), "temperature": Dim.of(temperature=1), "amount": Dim.of(amount_of_substance=1),
+                     "luminous": Dim.of(luminous_intensity=1), "length**(1/2)": Dim.of(length="1/2"), "length**2": Dim.of(length=2), "angle**2": Dim.of(angle=2),
+                     "angle**2*length": Dim.of(angle=2, length=1), "force": Dim.of(mass=1, length=1, time=-2), "energy": Dim.of(mass=1, length=2, time=-2),
+                     "energy/angle": Dim.of(mass=1, length=2, time=-2, angle=-1), "1/length": Dim.of(length=-1), "mass/length": Dim.of(mass=1, length=-1)})
     arg_kinds = ["quantity", "zero quantity", "infinite quantity", "NaN quantity", "symbolic quantity", "dimension"]
     exp_kinds = ["dimension", "quantity", "zero quantity"]  # any_dimension as a declared dimension is outside the property (and no catalogue guard uses it: G2)
     reported = set()
